@@ -318,7 +318,9 @@ PROPS["C15"] = {
                     "detect_cycle: the stack discipline of the closure DFS is proved; completeness of the search and that a reported list is a real cycle are "
                     "bounded only (every digraph with <= 4 nodes and <= 5 edges; histories)",
                     "trusted facts about dict iteration: each key of the snapshot is visited exactly once (ghost order = bijection onto the key set)",
-                    "victim selection (_select_deadlock_victim) and PriorityInheritance frames are covered by the bounded stand-in only",
+                    "victim selection (_select_deadlock_victim: that the victim is the lowest-priority / oldest member) and PriorityInheritance frames are covered by the bounded "
+                    "stand-in only; that a terminated victim owns nothing afterwards is the clause `terminated-operations-own-nothing` of Watchdog.execute, proved under C14 for "
+                    "an arbitrary event of the watchdog (not re-proved here)",
                     "the reference wait-for relation of the bounded stand-in is maintained from the controller's own BLOCKED/ACQUIRED answers"],
     "trusted_base": ["injective value injections (instance axioms)", "ghost membership sets for append-only lists",
                      "filter comprehension over a list of scalar tuples: x in result <=> x in source and filter(x) (filters without calls)"],
